@@ -46,6 +46,7 @@ type Model struct {
 	qual      types.Qualifier
 	defs      map[string]storeDef
 	lazies    map[string]*lazyMerge
+	recording map[string]HeapKey // when non-nil: heap keys read (used to compute the footprint of opaque predicates)
 }
 
 func NewModel(ctx *Ctx) *Model {
@@ -327,6 +328,9 @@ func (m *Model) resolve(t string) string {
 }
 
 func (m *Model) heapGet(s *State, k HeapKey) string {
+	if m.recording != nil {
+		m.recording[k.Key] = k
+	}
 	if t, ok := s.heap[k.Key]; ok {
 		if strings.HasPrefix(t, "LAZY:") {
 			t = m.resolve(t)
